@@ -11,7 +11,7 @@ import (
 
 func main() {
 	if len(os.Args) < 2 {
-		hx.Fatal("usage: udpnat replay|c18|conc|dns17 ...")
+		hx.Fatal("usage: udpnat replay|c18|conc|window|twol|dns17 ...")
 	}
 	mode := os.Args[1]
 	startMemoryWatchdog()
@@ -28,6 +28,7 @@ func main() {
 	cas := fs.String("case", "", "c18 scenario family")
 	nclients := fs.Int("clients", 24, "conc: concurrent clients")
 	rounds := fs.Int("rounds", 3, "conc: rounds")
+	norec := fs.Bool("norec", false, "twol: no metrics recorder at all (race-detector runs: no synchronisation added by the harness)")
 	fs.Parse(os.Args[2:])
 	switch mode {
 	case "replay":
@@ -36,6 +37,10 @@ func main() {
 		c18Main(*cas, *seed)
 	case "conc":
 		concMain(*out, *sum, *seed, *nclients, *rounds)
+	case "window":
+		windowMain(*out, *sum, *seed)
+	case "twol":
+		twoListenersMain(*out, *sum, *seed, *norec, *nclients)
 	case "dns17":
 		dns17Main(*out, *sum, *seed)
 	default:
